@@ -66,21 +66,21 @@ says what the language says: -/
 
 /-- a try body that would be defeated is never run — none of its output, none of its assignments —
 and the handler runs from the state before the `try` -/
-theorem undo_source_law (M n f : Nat) (env env1 : Core.Env) (tr1 : List Ev) (body handler k : Core.S)
-    (hb : Core.exec M n f env body = some (env1, tr1, .defeat)) :
-    Core.exec M n (f + 1) env (.tryUndo body handler k) =
-      (do let (env2, tr2, r2) ← Core.exec M n f env handler
+theorem undo_source_law (M n w f room o : Nat) (fns : List Core.FDecl) (env env1 : Core.Env) (tr1 : List Ev) (body handler k : Core.S)
+    (hb : Core.exec M n fns w f room o env body = some (env1, tr1, .defeat)) :
+    Core.exec M n fns w (f + 1) room o env (.tryUndo body handler k) =
+      (do let (env2, tr2, r2) ← Core.exec M n fns w f room o env handler
           if r2 = .norm then
-            let (env3, tr3, r3) ← Core.exec M n f env2 k
+            let (env3, tr3, r3) ← Core.exec M n fns w f room o env2 k
             pure (env3, tr2 ++ tr3, r3)
           else pure (env2, tr2, r2)) := by
   simp [Core.exec, hb]
 
 /-- a try body that completes is committed, and the handler is skipped -/
-theorem try_ok_source_law (M n f : Nat) (env env1 : Core.Env) (tr1 : List Ev) (body handler k : Core.S)
-    (hb : Core.exec M n f env body = some (env1, tr1, .norm)) :
-    Core.exec M n (f + 1) env (.tryUndo body handler k) =
-      (do let (env3, tr3, r3) ← Core.exec M n f env1 k
+theorem try_ok_source_law (M n w f room o : Nat) (fns : List Core.FDecl) (env env1 : Core.Env) (tr1 : List Ev) (body handler k : Core.S)
+    (hb : Core.exec M n fns w f room o env body = some (env1, tr1, .norm)) :
+    Core.exec M n fns w (f + 1) room o env (.tryUndo body handler k) =
+      (do let (env3, tr3, r3) ← Core.exec M n fns w f room o env1 k
           pure (env3, tr1 ++ tr3, r3)) := by
   simp [Core.exec, hb]
 
@@ -90,30 +90,30 @@ every core program (any nesting of blocks, conditionals and loops inside and aro
 every argument vector, word size, stack size and build mode.  (`Core.coreProg` is checked on
 every run to be identical to the real compiler's output, and `Core.exec` to agree with the
 reference machine.) -/
-theorem core_try_undo_correct (cf : Core.Config) (params : List String) (args : List Int) (body : Core.S) (hw : 2 ≤ cf.w)
-    (hB : Core.funcLen cf.checked body + Gen.stdlibLength < 256 ^ cf.w) (hSE : Core.F0 cf args < 256 ^ cf.w)
-    (hnd : params.Nodup) (hlen : args.length = params.length)
-    (hwf : Core.wfS params body = true) (hyl : Core.youLevel body = true)
+theorem core_try_undo_correct (cf : Core.Config) (args : List Int) (pr : Core.CProg) (hw : 2 ≤ cf.w)
+    (hB : Core.progLen cf.checked pr + Gen.stdlibLength < 256 ^ cf.w) (hSE : Core.F0 cf args < 256 ^ cf.w)
+    (hwf : Core.wfProg pr = true) (hlen : args.length = pr.params.length)
     (fuel : Nat) (env' : Core.Env) (tr : List Ev) (res : Core.Res)
-    (hex : Core.exec (256 ^ cf.w) (8 * cf.w) fuel (Core.argEnv (256 ^ cf.w) params args) body = some (env', tr, res))
+    (hex : Core.srcRun cf fuel args pr = some (env', tr, res))
     (hck : res = .div0 → cf.checked = true)
-    (hroom : Core.pkS cf.w (Core.entryOff cf.w params) body ≤ cf.stackWords * cf.w + args.length * cf.w + cf.w) :
-    ∃ mEnd, Exec (Sphinx.sphinx (Core.coreProg cf params body)) (Core.coreInit cf args body) (tr ++ Core.terminalEvs res)
-        ⟨Sphinx.tntPc (Core.funcLen cf.checked body), mEnd⟩ ∧
-      ¬ Halts (Sphinx.sphinx (Core.coreProg cf params body)) (Core.coreInit cf args body) :=
-  Core.core_correct cf params args body hw hB hSE hnd hlen hwf hyl fuel env' tr res hex hck hroom
+    (hroom : Core.pkS cf.w (Core.entryOff cf.w pr.params) pr.body ≤ Core.roomOf cf args) :
+    ∃ mEnd, Exec (Sphinx.sphinx (Core.coreProg cf pr)) (Core.coreInit cf args pr) (tr ++ Core.terminalEvs res)
+        ⟨Sphinx.tntPc (Core.progLen cf.checked pr), mEnd⟩ ∧
+      ¬ Halts (Sphinx.sphinx (Core.coreProg cf pr)) (Core.coreInit cf args pr) :=
+  Core.core_correct cf args pr hw hB hSE hwf hlen fuel env' tr res hex hck hroom
 
 /-- non-vacuity: a program whose try body prints `A`, assigns, is then defeated and undone: the
 committed output is `U` (handler) and `Y` (the assignment did not happen) -/
 example :
-    let body : Core.S :=
-      .decl "x" (.lit 5)
-        (.tryUndo (.putc 65 (.assign "x" (.lit 9) (.defeatIf (.cmp .gt (.var "x") (.lit 5)) .nil)))
-                  (.putc 85 .nil)
-          (.ifb (.cmp .eq (.var "x") (.lit 5)) (.putc 89 .nil) (.putc 78 .nil) .ret))
-    Core.wfS [] body = true ∧ Core.youLevel body = true ∧
-    (Core.exec (256 ^ 2) 16 12 (Core.argEnv (256 ^ 2) [] []) body).map (fun r => (r.2.1, r.2.2)) =
+    let pr : Core.CProg :=
+      { params := [], funs := [],
+        body := .decl "x" (.lit 5)
+          (.tryUndo (.putc 65 (.assign "x" (.lit 9) (.defeatIf (.cmp .gt (.var "x") (.lit 5)) .nil)))
+                    (.putc 85 .nil)
+            (.ifb (.cmp .eq (.var "x") (.lit 5)) (.putc 89 .nil) (.putc 78 .nil) .ret)) }
+    Core.wfProg pr = true ∧
+    (Core.srcRun ⟨2, 100, true⟩ 12 [] pr).map (fun r => (r.2.1, r.2.2)) =
       some ([Ev.out 85, Ev.out 89], .returned) := by
-  refine ⟨by decide, by decide, by decide⟩
+  refine ⟨by decide, by decide +kernel⟩
 
 end HidVerif.Props.C02
